@@ -1,7 +1,7 @@
 (* C19 — Malformed inputs are refused up-front with AssertionError (on the model: Model/Validate.v,
    the checks of __init__ / _prepare_data / fit / transform of the nine classes as ordered step
-   lists, `Repaired` = refit guard evaluated first, `Current` = guard in BaseDiscretizer.fit,
-   called last). *)
+   lists; `Current` = /repo as it is now, `Before` = before the fix: commits a2fb996 ce46eee
+   ff4805a cd23d68 65b7c26 2024976 4b0ac8a, kept for the historical records at the end). *)
 From Coq Require Import List Bool Arith.
 Import ListNotations.
 From AC.Model Require Import Validate CheckC19.
@@ -17,8 +17,8 @@ Theorem C19_reject_guarded :
   guarded c e m = true ->
   fitted o = fitted_at e ->
   exhibits c e m (fitted o) i = true ->
-  crash_free (steps w Repaired c e) (fitted o) i = true ->
-  fst (run_call (steps w Repaired c e) o i) = RAssert.
+  crash_free (steps w Current c e) (fitted o) i = true ->
+  fst (run_call (steps w Current c e) o i) = RAssert.
 Proof. exact reject_guarded. Qed.
 Print Assumptions C19_reject_guarded.
 
@@ -38,17 +38,17 @@ Theorem C19_frame_generic_fitted :
 Proof. exact frame_writes_guarded. Qed.
 Print Assumptions C19_frame_generic_fitted.
 
-(* reject_frame for the concrete repaired entry points: a fitted object of any of the nine
+(* reject_frame for the concrete entry points of the current tree: a fitted object of any of the nine
    classes is left unchanged by ANY second fit or transform call, and the second fit is rejected
    with AssertionError whatever its arguments *)
-Theorem C19_reject_frame_repaired :
+Theorem C19_reject_frame_current :
   forall (S : Type) (w : S -> input -> S) (c : cls) (e : entry) (o o' : obj S) (i : input) (r : result),
   e = ERefit \/ e = ETransform ->
   fitted o = true ->
-  run_call (steps w Repaired c e) o i = (r, o') ->
+  run_call (steps w Current c e) o i = (r, o') ->
   o' = o /\ (e = ERefit -> r = RAssert).
-Proof. exact reject_frame_repaired. Qed.
-Print Assumptions C19_reject_frame_repaired.
+Proof. exact reject_frame_current. Qed.
+Print Assumptions C19_reject_frame_current.
 
 (* transform and the constructors satisfy checks_first in both trees: a rejected call changed
    nothing; transform never writes at all *)
@@ -65,44 +65,27 @@ Theorem C19_transform_never_writes :
 Proof. exact transform_never_writes. Qed.
 Print Assumptions C19_transform_never_writes.
 
-(* the CURRENT BaseCarver.fit: a valid second fit of a fitted BinaryCarver is rejected with
-   AssertionError after the state was rewritten (O5) *)
-Theorem C19_refit_refuted :
-  exists (i : input) (o o' : obj nat),
-    fitted o = true /\
-    run_call (csteps Current KBinary ERefit) o i = (RAssert, o') /\
-    state o' <> state o.
-Proof. exact refit_current_refuted. Qed.
-Print Assumptions C19_refit_refuted.
-
-(* the same pattern in every class of the current tree: the state is rewritten before the
-   guard; MulticlassCarver (no ordinal feature) even accepts the second fit *)
-Theorem C19_refit_current_all_classes_refuted : forall c : cls,
-  exists (o' : obj nat) (r : result),
-    run_call (csteps Current c ERefit) (mkObj true 0) (valid_input c false false) = (r, o') /\
-    state o' <> 0 /\ (r = ROk <-> c = KMulticlass).
-Proof. exact refit_current_all_classes_refuted. Qed.
-Print Assumptions C19_refit_current_all_classes_refuted.
-
-(* the full statement "every in-scope triple is rejected with AssertionError" is FALSE of the
-   model of the code: every in-scope triple outside `guarded` (15 of them, unguarded_list) has a
-   single-fault input that is accepted or answered with another exception *)
+(* the full statement "every in-scope triple is rejected with AssertionError" is still FALSE of
+   the model of the code: every in-scope triple outside `guarded` (7 of them, lemma
+   unguarded_list: a str cell in a quantitative column at transform — every class with
+   quantitative features —, OrdinalDiscretizer.fit with a value absent from the ranking; both
+   recorded as known findings) has a single-fault input that is accepted or answered with
+   another exception *)
 Theorem C19_unguarded_refuted : forall c e m,
   in_scope c e m = true -> guarded c e m = false ->
   exists i : input,
     exhibits c e m (fitted_at e) i = true /\
-    fst (run_call (csteps Repaired c e) (mkObj (fitted_at e) 0) i) <> RAssert.
+    fst (run_call (csteps Current c e) (mkObj (fitted_at e) 0) i) <> RAssert.
 Proof. exact unguarded_refuted. Qed.
 Print Assumptions C19_unguarded_refuted.
 
-(* ... and inside guarded triples 17 variants hit a non-assertion failure point: X is None and y
-   shorter than X (every class but ContinuousDiscretizer), a continuous target mixing str and
-   numbers *)
+(* ... and inside guarded triples one variant hits a non-assertion failure point, for each of
+   the nine classes: X is None (known finding: _prepare_data skips every check) *)
 Theorem C19_crash_gaps_refuted :
   forallb (fun t => let '(c, e, m, i) := t in
              guarded c e m && exhibits c e m false i &&
-             result_eqb (fst (run_call (csteps Repaired c e) (mkObj false 0) i)) ROther)
-          crash_gap_witnesses = true /\ length crash_gap_witnesses = 17.
+             result_eqb (fst (run_call (csteps Current c e) (mkObj false 0) i)) ROther)
+          crash_gap_witnesses = true /\ length crash_gap_witnesses = 9.
 Proof. exact crash_gaps_refuted. Qed.
 Print Assumptions C19_crash_gaps_refuted.
 
@@ -119,10 +102,10 @@ Proof. exact accept_valid. Qed.
 Print Assumptions C19_accept_valid.
 
 (* the checker: verdict 0 means the case is in the model's domain, the property predicate holds
-   on the implementation's output and one of the two trees predicts that output *)
+   on the implementation's output and the current tree predicts that output *)
 Theorem C19_verdict_zero_sound : forall k : case19,
   verdict19 k = 0 ->
-  in_domain k = true /\ prop19 k = true /\ (agree Repaired k = true \/ agree Current k = true).
+  in_domain k = true /\ prop19 k = true /\ agree Current k = true.
 Proof. exact verdict19_zero_sound. Qed.
 Print Assumptions C19_verdict_zero_sound.
 
@@ -132,10 +115,30 @@ Theorem C19_predicate_spec : forall k : case19,
 Proof. exact prop19_spec. Qed.
 Print Assumptions C19_predicate_spec.
 
+(* ---- historical records: the tree BEFORE the fix commits ---------------------------------- *)
+(* O5 (repaired by a2fb996): a valid second fit of a fitted BinaryCarver was rejected with
+   AssertionError after the state was rewritten *)
+Theorem C19_before_fix_refit_refuted :
+  exists (i : input) (o o' : obj nat),
+    fitted o = true /\
+    run_call (csteps Before KBinary ERefit) o i = (RAssert, o') /\
+    state o' <> state o.
+Proof. exact before_fix_refit_refuted. Qed.
+Print Assumptions C19_before_fix_refit_refuted.
+
+(* the same pattern in every class: the state was rewritten before the guard; MulticlassCarver
+   (no ordinal feature) even accepted the second fit *)
+Theorem C19_before_fix_refit_all_classes_refuted : forall c : cls,
+  exists (o' : obj nat) (r : result),
+    run_call (csteps Before c ERefit) (mkObj true 0) (valid_input c false false) = (r, o') /\
+    state o' <> 0 /\ (r = ROk <-> c = KMulticlass).
+Proof. exact before_fix_refit_all_classes_refuted. Qed.
+Print Assumptions C19_before_fix_refit_all_classes_refuted.
+
 (* the hypotheses of C19_reject_guarded are satisfiable: NaN in y of a first BinaryCarver fit *)
 Example C19_nonvacuous :
   let i := inject MYNaN (valid_input KBinary true true) in
   guarded KBinary EFit MYNaN = true /\ exhibits KBinary EFit MYNaN false i = true /\
-  crash_free (csteps Repaired KBinary EFit) false i = true /\
-  run_call (csteps Repaired KBinary EFit) (mkObj false 0) i = (RAssert, mkObj false 0).
+  crash_free (csteps Current KBinary EFit) false i = true /\
+  run_call (csteps Current KBinary EFit) (mkObj false 0) i = (RAssert, mkObj false 0).
 Proof. vm_compute. repeat split; reflexivity. Qed.
